@@ -1296,13 +1296,22 @@ func genC23(r *simrt.Rand, tier string) any {
 	sc := &SeqScn{Kind: "C23", Cfg: genCfg(r), Cred: RootCred, ThinkM: 1, Sched: SeqSched(r.Uint64())}
 	sc.Cfg.MaxWorkers = 1
 	sc.Tree = []TreeEnt{{Path: "/big", Kind: "file", Mode: 0o644, Size: []int{1, 5000, 70000}[r.Int(3)], Seed: r.Uint64()}}
-	if r.Pct(30) {
-		sc.UpdAt = -1 // between FSINFO and the I/O
-		sc.UpdCfg = &SrvCfg{TransferSize: []int{1, 512, 4096, 65536, 1 << 20}[r.Int(5)]}
+	if r.Pct(40) {
+		// transfer sizes that are not multiples of four, tiny, or beyond the record limit
+		sc.Cfg.TransferSize = []int{1, 2, 3, 5, 1001, 1023, 4097, 65535, 1<<20 - 1, 1 << 20, 1<<20 + 1, 2 << 20}[r.Int(12)]
 	}
 	n := 1 + r.Int(3)
 	for i := 0; i < n; i++ {
 		sc.Ops = append(sc.Ops, Op{Op: "C23IO", H: 1, Seed: r.Uint64()})
+	}
+	switch r.Int(10) {
+	case 0, 1, 2:
+		sc.UpdAt = -1 // between FSINFO and the I/O
+		sc.UpdCfg = &SrvCfg{TransferSize: []int{1, 512, 4096, 65536, 1 << 20}[r.Int(5)]}
+	case 3, 4:
+		// changed at runtime before the FSINFO (zero and negative mean "default"), through either update path
+		sc.UpdAt = 1
+		sc.UpdCfg = &SrvCfg{TransferSize: []int{0, -1, 1, 1001, 4096, 1 << 21}[r.Int(6)], ViaTuning: r.Pct(50)}
 	}
 	return sc
 }
@@ -1323,7 +1332,7 @@ func init() {
 		genC25, "C25.")
 	seqProp("C26", "one case = a directory of 0-40 entries (files, directories, symlinks) with name lengths 1..255 listed by 2-8 READDIR/READDIRPLUS cookie-following sequences with count/maxcount from 1 upward (dense near the size of one entry), dircount <= maxcount, directory cache on/off with the clock advancing between pages, entries created between listings; oracle: concatenation over pages == model children exactly once, fileids equal to those of other replies, encoded READDIR3resok/READDIRPLUS3resok size <= the client's limit, NFS3ERR_TOOSMALL iff not even the next entry fits, a page that can hold an entry holds at least one; non-trivial = at least one listing; distinct by event digest",
 		genC26, "C26.")
-	seqProp("C23", "one case = FSINFO followed by READ and WRITE with counts drawn from {1, preferred, max-1, max} of the advertised limits, for a per-run configured TransferSize (1..65536 and default) optionally changed at runtime between FSINFO and the I/O, on a full record-marked connection (the 1 MiB record limit is in play); oracle: READ before EOF returns >= 1 correct byte, WRITE is accepted (never NFS3ERR_INVAL, never a dropped connection) and reports its count, rtpref<=rtmax, wtpref<=wtmax; non-trivial = at least one FSINFO-driven I/O; distinct by event digest",
+	seqProp("C23", "one case = FSINFO followed by READ and WRITE with counts drawn from {1, preferred, max-1, max} of the advertised limits, for a per-run configured TransferSize (1..65536 and default; in 40% of the runs 1, 2, 3, 5, 1001, 1023, 4097, 65535 or values around and above the 1 MiB record limit) optionally changed at runtime between FSINFO and the I/O, or before the FSINFO (0, -1, 1, 1001, 4096, 2 MiB through UpdateExportOptions or UpdateTuningOptions), on a full record-marked connection (the 1 MiB record limit is in play); oracle: READ before EOF returns >= 1 correct byte, WRITE is accepted (never NFS3ERR_INVAL, never a dropped connection) and reports its count, rtpref<=rtmax, wtpref<=wtmax; non-trivial = at least one FSINFO-driven I/O; distinct by event digest",
 		genC23, "C23.")
 	seqProp("C05", "one case = a history of 10-50 handle-issuing calls (MNT, LOOKUP, CREATE, MKDIR, SYMLINK, READDIRPLUS) over 2-50 paths with the handle table limit drawn from {1,2,3,5,10,16,32}, each returned handle used at once in GETATTR, plus re-use of older handle values; oracle: the immediately following GETATTR succeeds and every backend call it makes is for the path the handle was issued for; accessor check after every operation: live handle count <= limit and every live path has exactly one handle value; 25% of the cases instead drive the real FileHandleMap directly: 2-4 tasks issuing 2-7 Allocate/Get/Release/ReleaseAll calls over 1-4 paths with limit 1..100 under the seeded scheduler (also with -race), one atomic snapshot of both maps after every call (ids and paths in bijection, count <= limit, an issued value denotes its path); non-trivial = at least 2 eviction rounds (request histories) or >= 4 calls from >= 2 tasks (direct); distinct by event digest",
 		genC05("C05"), "C05.")
